@@ -370,7 +370,10 @@ fn acquire_slot(nodes: &[Node], lane: usize) -> Result<PathBuf, String> {
         None => {
             let p = pool.base.as_path().join(format!("s{}", pool.next));
             pool.next += 1;
-            fs::create_dir(&p).map_err(|e| format!("mkdir {}: {}", p.display(), e))?;
+            // (a child process forked by in_child() may have created the same slot already)
+            if !p.is_dir() {
+                fs::create_dir(&p).map_err(|e| format!("mkdir {}: {}", p.display(), e))?;
+            }
             pool.slots.insert(key, p.clone());
             p
         }
@@ -480,6 +483,8 @@ pub struct World {
     /// dropping the file system would close it a second time, which aborts a process built with
     /// debug assertions ("IO Safety violation"). The scenario then skips the release and leaks the World.
     pub poisoned: bool,
+    /// scenario label, part of the witness when set
+    pub label: String,
 }
 
 fn cstr(name: &str) -> CString {
@@ -569,6 +574,7 @@ impl World {
             refused: Vec::new(),
             cb_error_at: None,
             poisoned: false,
+            label: String::new(),
         };
         w.watch0 = w.sizes();
         Ok(w)
@@ -595,6 +601,9 @@ impl World {
             ("config", s(self.cfg.show())),
             ("script", arr(self.trace.iter().map(|t| s(t.text.clone())))),
         ];
+        if !self.label.is_empty() && !extra.iter().any(|(k, _)| *k == "scenario") {
+            v.push(("scenario", s(self.label.clone())));
+        }
         v.extend(extra);
         obj(v)
     }
@@ -992,6 +1001,9 @@ impl Cx<'_> {
         if !self.selects(label) {
             return;
         }
+        if std::env::var_os("RX_PT_TRACE").is_some() {
+            eprintln!("pt: {}", label);
+        }
         let r = guarded(|| f(self));
         if let Err(m) = r {
             self.tool_error(format!("scenario [{}] panicked: {}", label, m));
@@ -1018,6 +1030,34 @@ impl Cx<'_> {
         self.rep.distinct.insert(shape.to_string());
         if self.rep.samples.len() < 3 && matches!(self.rep.distinct.len(), 1 | 900 | 5000) {
             self.rep.samples.push(w.witness(vec![("scenario", s(shape))]));
+        }
+    }
+}
+
+/// Run `f` in a forked child (the harness is single-threaded). Ok if the child ended normally,
+/// Err(signal) if it was killed - e.g. by the abort of a build with debug assertions when the
+/// library closes a descriptor twice ("IO Safety violation"). The parent is not affected.
+pub fn in_child(f: impl FnOnce()) -> Result<(), i32> {
+    unsafe {
+        let pid = libc::fork();
+        if pid < 0 {
+            return Ok(());
+        }
+        if pid == 0 {
+            let devnull = libc::open(b"/dev/null\0".as_ptr() as *const libc::c_char, libc::O_WRONLY);
+            if devnull >= 0 {
+                libc::dup2(devnull, 1);
+                libc::dup2(devnull, 2);
+            }
+            let _ = std::panic::catch_unwind(std::panic::AssertUnwindSafe(f));
+            libc::_exit(0);
+        }
+        let mut st: libc::c_int = 0;
+        libc::waitpid(pid, &mut st, 0);
+        if libc::WIFSIGNALED(st) {
+            Err(libc::WTERMSIG(st))
+        } else {
+            Ok(())
         }
     }
 }
